@@ -463,28 +463,37 @@ def _cse_bookkeeping(ctx, model):
                             "names was not found")
 
     def unbounded(g):
-        """every way through g reaches a `while True` that yields a value built
-        from a counter the loop advances"""
-        loops_ = [w for w in ast.walk(g) if isinstance(w, ast.While)
-                  and isinstance(w.test, ast.Constant) and w.test.value is True]
-        if not loops_:
-            return False
-        for w in loops_:
-            incs = {a.target.id for a in ast.walk(w) if isinstance(
-                a, ast.AugAssign) and isinstance(a.target, ast.Name)}
+        """every way through g reaches an unbounded loop -- `while True` with a
+        counter it advances, or `for i in itertools.count(...)` -- that yields
+        a value built from the counter"""
+        def loop_ok(w):
+            if isinstance(w, ast.While) and isinstance(
+                    w.test, ast.Constant) and w.test.value is True:
+                ctr = {a.target.id for a in ast.walk(w) if isinstance(
+                    a, ast.AugAssign) and isinstance(a.target, ast.Name)}
+            elif isinstance(w, ast.For) and isinstance(w.iter, ast.Call) and \
+                    ast.unparse(w.iter.func) in ("count", "itertools.count") \
+                    and isinstance(w.target, ast.Name):
+                ctr = {w.target.id}
+            else:
+                return None
             ys = [y for y in ast.walk(w) if isinstance(y, ast.Yield)
                   and y.value is not None]
-            if not ys or not any(isinstance(n_, ast.Name) and n_.id in incs
-                                 for y in ys for n_ in ast.walk(y.value)):
-                return False
+            return bool(ys) and any(isinstance(n_, ast.Name) and n_.id in ctr
+                                    for y in ys for n_ in ast.walk(y.value))
+        verdicts = [loop_ok(w) for w in ast.walk(g)
+                    if isinstance(w, (ast.While, ast.For))]
+        verdicts = [v for v in verdicts if v is not None]
+        if not verdicts or not all(verdicts):
+            return False
         # one unbounded loop per top-level branch of the generator
         tops = [st for st in g.body if isinstance(st, ast.If)]
-        if tops:
-            for st in tops:
-                for branch in (st.body, st.orelse):
-                    if branch and not any(isinstance(x, ast.While)
-                                          for b_ in branch for x in ast.walk(b_)):
-                        return False
+        for st in tops:
+            for branch in (st.body, st.orelse):
+                if branch and not any(loop_ok(x) for b_ in branch
+                                      for x in ast.walk(b_)
+                                      if isinstance(x, (ast.While, ast.For))):
+                    return False
         return True
     ok = all(unbounded(g) for g in gens)
     ctx.ob("P/c-cse/name-generators", ok, loc,
